@@ -22,7 +22,14 @@ namespace pplv {
 // ---- PRNG: splitmix64; every random choice of a harness derives from one seed -------------
 struct Rng {
   uint64_t s;
-  explicit Rng(uint64_t seed) : s(seed * 0x9E3779B97F4A7C15ull + 0x1234567ull) {}
+  // The seed is scrambled first: with s = seed*G the streams of seeds k and k+1 would be the
+  // same sequence shifted by one step (splitmix64 advances its state by G).
+  static uint64_t mix(uint64_t z) {
+    z = (z ^ (z >> 33)) * 0xff51afd7ed558ccdull;
+    z = (z ^ (z >> 33)) * 0xc4ceb9fe1a85ec53ull;
+    return z ^ (z >> 33);
+  }
+  explicit Rng(uint64_t seed) : s(mix(mix(seed + 0x9E3779B97F4A7C15ull) ^ 0x1234567ull)) {}
   uint64_t next() {
     uint64_t z = (s += 0x9E3779B97F4A7C15ull);
     z = (z ^ (z >> 30)) * 0xBF58476D1CE4E5B9ull;
